@@ -27,7 +27,6 @@ SEMANTIC = [
     (r'recommendation not met', 'recommends'),
     (r'failed to verify that .* is satisfied', 'requires@call'),
     (r'cannot show invariant', 'invariant'),
-    (r'unwrap|expect', 'safety:unwrap'),
     (r'possible .* out of bounds|index out of bounds', 'safety:index'),
 ]
 RESOURCE = re.compile(r'[Rr]esource limit|rlimit|timed? ?out|solver (crashed|error)|out of memory', re.I)
@@ -115,7 +114,7 @@ def run_verus(path, rlimit=None, multiple_errors=10, timeout=1800, use_cache=Tru
         line_no = prim[0]['line_start'] if prim else (spans[0]['line_start'] if spans else 0)
         entry = {'message': msg, 'line': line_no,
                  'spans': [{'line_start': s['line_start'], 'line_end': s['line_end'], 'label': s.get('label'), 'primary': s.get('is_primary'), 'file': s.get('file_name'),
-                            'text': ' '.join(t['text'].strip() for t in s.get('text', []))[:400]} for s in spans],
+                            'text': ' '.join(t['text'][max(0, t.get('highlight_start', 1) - 1):max(0, t.get('highlight_end', len(t['text']) + 1) - 1)].strip() for t in s.get('text', []))[:400]} for s in spans],
                  'rendered': (m.get('rendered') or '')[:4000]}
         if RESOURCE.search(msg):
             r.resource.append(entry)
